@@ -830,7 +830,7 @@ std::string Position::san_without_check(Move move) const
 
     PieceKind moved_piece = make_piece_kind(piece_at(from(move)));
 
-    std::array<Move, 128> moves;
+    std::array<Move, MAX_MOVES> moves;
     Move* begin = moves.data();
     Move* end = generate_moves(*this, _current_side, begin);
     std::vector<Move> matching_moves(begin, end);
@@ -865,8 +865,8 @@ std::string Position::san_without_check(Move move) const
     }
 
     Bitboard capturing_bb = pieces(!_current_side);
-    capturing_bb |=
-        moved_piece == PAWN ? square_bb(_enpassant_square) : no_squares_bb;
+    if (moved_piece == PAWN && _enpassant_square != NO_SQUARE)
+        capturing_bb |= square_bb(_enpassant_square);
     if (square_bb(to(move)) & capturing_bb)
     {
         if (moved_piece == PAWN && s == "")
